@@ -134,6 +134,16 @@ REGISTRY = {
         ],
         "require": {"c19b:alive-after-probe": 53, "c19b:answers": 62, "c19b:answers-then-silent": 55, "c19b:inbound-chatty": 45, "c19b:outbound-chatty": 42, "c19b:reply-outstanding": 39, "c19b:role:active": 184, "c19b:role:passive": 191, "c19b:silent": 77, "c19b:suppress:false": 188, "c19b:suppress:true": 187, "c19b:threshold:1": 100, "c19b:threshold:2": 101, "c19b:threshold:3": 83, "c19b:threshold:4": 91, "credited": 9119, "restart": 10356, "suppress:false": 12484, "suppress:true": 12515, "threshold:1": 5227, "threshold:2": 5148, "threshold:3": 3785, "threshold:4": 3787, "threshold:5": 3226, "threshold:6": 3824},
     },
+    "C20": {
+        "level": "exploration",
+        "claim": "Histories of 2-8 phases on one connection (bursts of concurrent reply-expected sends ending in reply / reject / T3 / cancel / late reply, fire-and-forget sends of every kind, inbound traffic, refused sends while deselected, sends racing a deselect or a drop, drops with pending senders and refused re-dials, write timeouts, close/reopen, cold open) with a quiescent point after every phase, where every counter and gauge is compared with a ledger kept by the raw peers (data frames actually received / sent while Selected) and by the harness (outcome of every call); gauges are also sampled for negativity at every call return and peer frame.",
+        "trust": "HSMS-SS only. Quiescence is synctest.Wait in virtual time. The reconnecting gauge is sampled while the harness refuses dials, not continuously.",
+        "technique": "property-based testing (rapid): generated histories in testing/synctest against a conservation ledger",
+        "tests": [
+            {"name": "TestC20Metrics", "shards": 8, "shards_thorough": 16},
+        ],
+        "require": {"c20:cold-open": 502, "c20:outcome:cancel": 777, "c20:outcome:disconnect": 597, "c20:outcome:ok": 1592, "c20:outcome:refused": 1326, "c20:outcome:reject": 869, "c20:outcome:t3": 1220, "c20:outcome:write-error": 549, "c20:role:active": 995, "c20:role:passive": 1004},
+    },
     "C13": {
         "level": "exploration",
         "claim": 'Generated messages over the stated item grammar x all encoder options round-tripped through the strict encoder and strict parser; parser-accepted texts produced by a grammar-directed text generator re-encoded and re-parsed.',
